@@ -1,3 +1,617 @@
-import ScryerModel.Model.Index
+import ScryerModel.Proofs.IndexDyn
+/-!
+Whole-predicate compilation (`build`, i.e. `compile_predicate`: `split_predicate` +
+`compile_pred_subseq` + `compute_indices`) establishes the invariant `Inv` of the first-argument
+index model (property C06, static part): `inv_build`, `live_build`, `hd_build`, and with
+`Inv.select_exact` the property itself, `build_select_exact`.
+-/
 namespace Scryer.Index
+
+/-! ### insertion-ordered maps key ↦ clauses -/
+section gmaps
+variable {κ : Type} [DecidableEq κ]
+
+/-- look-up in a `CodeOffsets` map: first match, `[]` on a miss. -/
+def glookup : List (κ × List Nat) → κ → List Nat
+  | [], _ => []
+  | (k', l) :: r, k => if k' = k then l else glookup r k
+
+theorem glookup_ginsert (m : List (κ × List Nat)) (k k' : κ) (id : Nat) :
+    glookup (ginsert m k id) k' = if k' = k then glookup m k ++ [id] else glookup m k' := by
+  induction m with
+  | nil =>
+    by_cases h : k' = k
+    · subst h; simp [ginsert, glookup]
+    · have h' : ¬ k = k' := fun e => h e.symm
+      simp [ginsert, glookup, h, h']
+  | cons x r ih =>
+    obtain ⟨k0, l⟩ := x
+    by_cases h0 : k0 = k
+    · subst h0
+      by_cases h : k' = k0
+      · subst h; simp [ginsert, glookup]
+      · have h' : ¬ k0 = k' := fun e => h e.symm
+        simp [ginsert, glookup, h, h']
+    · by_cases h : k' = k
+      · subst h; simp [ginsert, glookup, h0, ih]
+      · simp [ginsert, glookup, h0, ih, h]
+
+/-- every key of the map has at least one clause. -/
+def GNE (m : List (κ × List Nat)) : Prop := ∀ p, p ∈ m → p.2 ≠ []
+
+theorem GNE.ginsert {m : List (κ × List Nat)} (h : GNE m) (k : κ) (id : Nat) :
+    GNE (ginsert m k id) := by
+  induction m with
+  | nil => intro p hp; simp [Scryer.Index.ginsert] at hp; subst hp; simp
+  | cons x r ih =>
+    obtain ⟨k0, l⟩ := x
+    have hr : GNE r := fun p hp => h p (by simp [hp])
+    intro p hp
+    simp only [Scryer.Index.ginsert] at hp
+    split at hp
+    · rcases List.mem_cons.1 hp with e | e
+      · subst e; simp
+      · exact hr p e
+    · rcases List.mem_cons.1 hp with e | e
+      · subst e; exact h _ (by simp)
+      · exact ih hr p e
+
+/-- `second_level_index` of one entry. -/
+def ptrOf : List Nat → Ptr
+  | [] => .fail
+  | [i] => .ext i
+  | code => .choice code
+
+theorem ptrOf_ids (l : List Nat) : (ptrOf l).ids = l := by
+  match l with
+  | [] => rfl
+  | [i] => rfl
+  | _ :: _ :: _ => rfl
+
+omit [DecidableEq κ] in
+theorem secondLevel_cons (k : κ) (l : List Nat) (r : List (κ × List Nat)) (hl : l ≠ []) :
+    secondLevel ((k, l) :: r) = (k, ptrOf l) :: secondLevel r := by
+  match l, hl with
+  | [i], _ => rfl
+  | _ :: _ :: _, _ => rfl
+
+omit [DecidableEq κ] in
+theorem secondLevel_length (m : List (κ × List Nat)) (h : GNE m) :
+    (secondLevel m).length = m.length := by
+  induction m with
+  | nil => rfl
+  | cons x r ih =>
+    obtain ⟨k, l⟩ := x
+    rw [secondLevel_cons k l r (h (k, l) (by simp))]
+    simp [ih (fun p hp => h p (by simp [hp]))]
+
+theorem secondLevel_look (m : List (κ × List Nat)) (h : GNE m) (k : κ) :
+    ((tlookup (secondLevel m) k).getD .fail).ids = glookup m k := by
+  induction m with
+  | nil => rfl
+  | cons x r ih =>
+    obtain ⟨k0, l⟩ := x
+    rw [secondLevel_cons k0 l r (h (k0, l) (by simp))]
+    simp only [tlookup, glookup]
+    split
+    · simp [ptrOf_ids]
+    · exact ih (fun p hp => h p (by simp [hp]))
+
+omit [DecidableEq κ] in
+theorem nodup_all_eq {l : List κ} (nd : l.Nodup) (k : κ) (h : ∀ x, x ∈ l → x = k) :
+    l = [] ∨ l = [k] := by
+  match l, nd, h with
+  | [], _, _ => exact Or.inl rfl
+  | [a], _, h => exact Or.inr (by rw [h a (by simp)])
+  | a :: b :: r, nd, h =>
+    have ha := h a (by simp)
+    have hb := h b (by simp)
+    subst ha; subst hb
+    simp at nd
+
+/-- **`switch_on`** of a map that files every clause of the chain under each of its keys, in
+chain order, satisfies the slot invariant. -/
+theorem slotInv_switchOn (chain : List Nat) (alive : Nat → Bool) (keys : Nat → List κ)
+    (G : List (κ × List Nat)) (hne : GNE G)
+    (h1 : ∀ k, (glookup G k).Sublist chain)
+    (h2 : ∀ id, id ∈ chain → ∀ k, k ∈ keys id → id ∈ glookup G k)
+    (h3 : ∀ id, id ∈ chain → (keys id).Nodup) :
+    SlotInv chain alive keys (switchOn G) := by
+  match G, hne, h1, h2 with
+  | [], _, _, h2 =>
+    have e : switchOn ([] : List (κ × List Nat)) = .leaf .fail := by simp [switchOn, secondLevel]
+    rw [e]
+    refine ⟨fun k => ?_, fun id hi _ k hk => ?_, fun p hp hpf => ?_⟩
+    · simp [PtrOK, Slot.look, Ptr.ids]
+    · have := h2 id hi k hk; simp [glookup] at this
+    · injection hp with hp; exact absurd hp.symm hpf
+  | [(k0, l)], hne, h1, h2 =>
+    have hl : l ≠ [] := hne (k0, l) (by simp)
+    have e : switchOn [(k0, l)] = .leaf (ptrOf l) := by
+      simp [switchOn, secondLevel_cons k0 l [] hl, secondLevel]
+    rw [e]
+    have hk0 : ∀ id, id ∈ chain → ∀ k, k ∈ keys id → k = k0 ∧ id ∈ l := by
+      intro id hi k hk
+      have := h2 id hi k hk
+      simp only [glookup] at this
+      split at this
+      · rename_i e; exact ⟨e.symm, this⟩
+      · simp at this
+    refine ⟨fun k => ?_, fun id hi _ k hk => ?_, fun p hp hpf => ⟨k0, fun id hi _ => ?_⟩⟩
+    · have := h1 k0
+      simpa [PtrOK, Slot.look, ptrOf_ids, glookup] using this
+    · simpa [Slot.look, ptrOf_ids] using (hk0 id hi k hk).2
+    · exact nodup_all_eq (h3 id hi) k0 (fun x hx => (hk0 id hi x hx).1)
+  | a :: b :: r, hne, h1, h2 =>
+    have e : switchOn (a :: b :: r) = .table (secondLevel (a :: b :: r)) := by
+      have := secondLevel_length (a :: b :: r) hne
+      simp only [switchOn]
+      rw [if_pos (by rw [this]; simp)]
+    rw [e]
+    refine ⟨fun k => ?_, fun id hi _ k hk => ?_, fun p hp hpf => by cases hp⟩
+    · simp only [PtrOK, Slot.look, secondLevel_look _ hne]; exact h1 k
+    · simp only [Slot.look, secondLevel_look _ hne]; exact h2 id hi k hk
+
+end gmaps
+
+/-! ### `compile_pred_subseq` -/
+
+/-- the index collected over the clauses of a subsequence. -/
+def collect (arg : Nat) (ms : List (Nat × Head)) (o : Offsets) : Offsets :=
+  ms.foldl (fun o m => indexTerm o (argAt m.2 arg) m.1) o
+
+theorem collect_cons (arg : Nat) (m : Nat × Head) (ms : List (Nat × Head)) (o : Offsets) :
+    collect arg (m :: ms) o = collect arg ms (indexTerm o (argAt m.2 arg) m.1) := rfl
+
+theorem ckeys_nodup (fa : FirstArg) : (ckeys fa).Nodup := by
+  cases fa with
+  | const l =>
+    simp only [ckeys]
+    cases h : l.altKey with
+    | none => simp
+    | some k => simpa using (altKey_ne_key l k h).symm
+  | _ => simp [ckeys]
+
+theorem skeys_nodup (fa : FirstArg) : (skeys fa).Nodup := by
+  cases fa <;> simp [skeys]
+
+theorem indexTerm_consts (o : Offsets) (fa : FirstArg) (id : Nat) (k : CKey) :
+    glookup (indexTerm o fa id).consts k
+      = glookup o.consts k ++ (if k ∈ ckeys fa then [id] else []) := by
+  cases fa with
+  | const l =>
+    cases h : l.altKey with
+    | none =>
+      simp only [indexTerm, ckeys, h, glookup_ginsert]
+      by_cases e : k = l.key <;> simp [e]
+    | some k2 =>
+      have hne := altKey_ne_key l k2 h
+      simp only [indexTerm, ckeys, h, glookup_ginsert]
+      by_cases e : k = l.key
+      · subst e
+        have : ¬ l.key = k2 := fun e => hne e.symm
+        simp [this]
+      · by_cases e2 : k = k2
+        · subst e2; simp [e]
+        · simp [e, e2]
+  | _ => simp [indexTerm, ckeys]
+
+theorem indexTerm_structs (o : Offsets) (fa : FirstArg) (id : Nat) (k : String × Nat) :
+    glookup (indexTerm o fa id).structs k
+      = glookup o.structs k ++ (if k ∈ skeys fa then [id] else []) := by
+  cases fa with
+  | struct n a =>
+    simp only [indexTerm, skeys, glookup_ginsert]
+    by_cases e : k = (n, a) <;> simp [e]
+  | const l => simp only [indexTerm, skeys]; split <;> simp
+  | _ => simp [indexTerm, skeys]
+
+theorem indexTerm_lists (o : Offsets) (fa : FirstArg) (id : Nat) :
+    (indexTerm o fa id).lists = o.lists ++ (if fa = .list then [id] else []) := by
+  cases fa with
+  | const l => simp only [indexTerm]; split <;> simp
+  | _ => simp [indexTerm]
+
+theorem indexTerm_gne (o : Offsets) (fa : FirstArg) (id : Nat) (hc : GNE o.consts)
+    (hs : GNE o.structs) : GNE (indexTerm o fa id).consts ∧ GNE (indexTerm o fa id).structs := by
+  cases fa with
+  | const l =>
+    simp only [indexTerm]; split
+    · exact ⟨(hc.ginsert _ _).ginsert _ _, hs⟩
+    · exact ⟨hc.ginsert _ _, hs⟩
+  | struct n a => exact ⟨hc, hs.ginsert _ _⟩
+  | _ => exact ⟨hc, hs⟩
+
+theorem collect_gne (arg : Nat) (ms : List (Nat × Head)) (o : Offsets) (hc : GNE o.consts)
+    (hs : GNE o.structs) : GNE (collect arg ms o).consts ∧ GNE (collect arg ms o).structs := by
+  induction ms generalizing o with
+  | nil => exact ⟨hc, hs⟩
+  | cons m r ih =>
+    rw [collect_cons]
+    have := indexTerm_gne o (argAt m.2 arg) m.1 hc hs
+    exact ih _ this.1 this.2
+
+theorem collect_consts (arg : Nat) (ms : List (Nat × Head)) (o : Offsets) (k : CKey) :
+    glookup (collect arg ms o).consts k
+      = glookup o.consts k ++ (ms.filter (fun m => decide (k ∈ ckeys (argAt m.2 arg)))).map (·.1) := by
+  induction ms generalizing o with
+  | nil => simp [collect]
+  | cons m r ih =>
+    rw [collect_cons, ih, indexTerm_consts]
+    by_cases h : k ∈ ckeys (argAt m.2 arg) <;> simp [h]
+
+theorem collect_structs (arg : Nat) (ms : List (Nat × Head)) (o : Offsets) (k : String × Nat) :
+    glookup (collect arg ms o).structs k
+      = glookup o.structs k ++ (ms.filter (fun m => decide (k ∈ skeys (argAt m.2 arg)))).map (·.1) := by
+  induction ms generalizing o with
+  | nil => simp [collect]
+  | cons m r ih =>
+    rw [collect_cons, ih, indexTerm_structs]
+    by_cases h : k ∈ skeys (argAt m.2 arg) <;> simp [h]
+
+theorem collect_lists (arg : Nat) (ms : List (Nat × Head)) (o : Offsets) :
+    (collect arg ms o).lists
+      = o.lists ++ (ms.filter (fun m => decide (argAt m.2 arg = .list))).map (·.1) := by
+  induction ms generalizing o with
+  | nil => simp [collect]
+  | cons m r ih =>
+    rw [collect_cons, ih, indexTerm_lists]
+    by_cases h : argAt m.2 arg = .list <;> simp [h]
+
+theorem collect_allvar (arg : Nat) (ms : List (Nat × Head)) (o : Offsets)
+    (h : ∀ m, m ∈ ms → argAt m.2 arg = .var) : collect arg ms o = o := by
+  induction ms generalizing o with
+  | nil => rfl
+  | cons m r ih =>
+    rw [collect_cons, h m (by simp)]
+    exact ih _ (fun m' hm' => h m' (by simp [hm']))
+
+theorem switchOnList_ids (l : List Nat) : (switchOnList l).ids = l := by
+  match l with
+  | [] => rfl
+  | [i] => rfl
+  | _ :: _ :: _ => simp [switchOnList, Ptr.ids]
+
+theorem compileSeg_chain (ext : Bool) (arg : Nat) (ms : List (Nat × Head)) :
+    (compileSeg ext arg ms).chain = ms.map (·.1) := by
+  unfold compileSeg
+  simp only
+  split
+  · split <;> rfl
+  · rfl
+
+/-- a run of clauses without any non-variable argument gets no index code. -/
+theorem compileSeg_allvar (ext : Bool) (arg : Nat) (ms : List (Nat × Head))
+    (h : ∀ m, m ∈ ms → firstInst m.2 = none) : compileSeg ext arg ms = .plain (ms.map (·.1)) := by
+  have hv : ∀ m, m ∈ ms → argAt m.2 arg = .var := fun m hm => firstInstFrom_none m.2 0 (h m hm) arg
+  have := collect_allvar arg ms Offsets.empty hv
+  unfold collect at this
+  unfold compileSeg
+  simp only [this]
+  simp [Offsets.noIndices, Offsets.empty]
+
+/-- **the index code `compile_pred_subseq` emits for a run of clauses that all have their first
+non-variable argument at `arg` satisfies the subsequence invariant.** -/
+theorem compileSeg_inv (hd : Nat → Head) (alive : Nat → Bool) (ext : Bool) (arg : Nat)
+    (ms : List (Nat × Head)) (sub : Sub)
+    (hhd : ∀ m, m ∈ ms → hd m.1 = m.2) (harg : ∀ m, m ∈ ms → firstInst m.2 = some arg)
+    (hs : compileSeg ext arg ms = .indexed sub) : SubInv hd alive sub := by
+  have hsub : sub = Sub.mk arg (ms.map (·.1)) (switchOn (collect arg ms Offsets.empty).consts)
+      (switchOnList (collect arg ms Offsets.empty).lists)
+      (switchOn (collect arg ms Offsets.empty).structs) := by
+    unfold compileSeg at hs
+    simp only at hs
+    split at hs
+    · split at hs
+      · cases hs
+      · injection hs with hs; exact hs.symm
+    · cases hs
+  subst hsub
+  have hgne := collect_gne arg ms Offsets.empty (fun p hp => by simp [Offsets.empty] at hp)
+    (fun p hp => by simp [Offsets.empty] at hp)
+  have hmem : ∀ id, id ∈ ms.map (·.1) → ∃ m, m ∈ ms ∧ m.1 = id ∧ hd id = m.2 := by
+    intro id hi
+    obtain ⟨m, hm, e⟩ := List.mem_map.1 hi
+    exact ⟨m, hm, e, by rw [← e]; exact hhd m hm⟩
+  refine ⟨?_, ?_, ?_, ?_, ?_⟩
+  · apply slotInv_switchOn _ _ _ _ hgne.1
+    · intro k
+      rw [collect_consts]
+      simp only [Offsets.empty, glookup, List.nil_append]
+      exact List.Sublist.map _ List.filter_sublist
+    · intro id hi k hk
+      obtain ⟨m, hm, e, hh⟩ := hmem id hi
+      rw [collect_consts]
+      simp only [Offsets.empty, glookup, List.nil_append]
+      refine List.mem_map.2 ⟨m, List.mem_filter.2 ⟨hm, ?_⟩, e⟩
+      simp only [hh] at hk
+      simpa using hk
+    · intro id _; exact ckeys_nodup _
+  · apply slotInv_switchOn _ _ _ _ hgne.2
+    · intro k
+      rw [collect_structs]
+      simp only [Offsets.empty, glookup, List.nil_append]
+      exact List.Sublist.map _ List.filter_sublist
+    · intro id hi k hk
+      obtain ⟨m, hm, e, hh⟩ := hmem id hi
+      rw [collect_structs]
+      simp only [Offsets.empty, glookup, List.nil_append]
+      refine List.mem_map.2 ⟨m, List.mem_filter.2 ⟨hm, ?_⟩, e⟩
+      simp only [hh] at hk
+      simpa using hk
+    · intro id _; exact skeys_nodup _
+  · simp only [PtrOK, switchOnList_ids, collect_lists, Offsets.empty, List.nil_append]
+    exact List.Sublist.map _ List.filter_sublist
+  · intro id hi _ hl
+    obtain ⟨m, hm, e, hh⟩ := hmem id hi
+    simp only [switchOnList_ids, collect_lists, Offsets.empty, List.nil_append]
+    refine List.mem_map.2 ⟨m, List.mem_filter.2 ⟨hm, ?_⟩, e⟩
+    simp only [hh] at hl
+    simpa using hl
+  · intro id hi
+    obtain ⟨m, hm, e, hh⟩ := hmem id hi
+    simp only [hh]
+    exact harg m hm
+
+/-! ### `split_predicate` -/
+
+/-- the spans tile `[a, b)`, left to right, and none is empty. -/
+def Tiles : List Span → Nat → Nat → Prop
+  | [], a, b => a = b
+  | sp :: r, a, b => sp.left = a ∧ sp.left < sp.right ∧ Tiles r sp.right b
+
+theorem Tiles.append {s1 s2 : List Span} {a b c : Nat} (h1 : Tiles s1 a b) (h2 : Tiles s2 b c) :
+    Tiles (s1 ++ s2) a c := by
+  induction s1 generalizing a with
+  | nil => simp only [Tiles] at h1; subst h1; simpa using h2
+  | cons sp r ih => exact ⟨h1.1, h1.2.1, ih h1.2.2⟩
+
+theorem Tiles.snoc {s : List Span} {a l r : Nat} (o : Nat) (h1 : Tiles s a l) (h : l < r) :
+    Tiles (s ++ [⟨l, r, o⟩]) a r :=
+  h1.append ⟨rfl, h, rfl⟩
+
+theorem Tiles.le {s : List Span} {a b : Nat} (h : Tiles s a b) : a ≤ b := by
+  induction s generalizing a with
+  | nil => simp only [Tiles] at h; omega
+  | cons sp r ih => have := ih h.2.2; have := h.1; have := h.2.1; omega
+
+theorem take_drop_glue {α : Type} (l : List α) (a r b : Nat) (h1 : a ≤ r) (h2 : r ≤ b) :
+    (l.drop a).take (r - a) ++ (l.drop r).take (b - r) = (l.drop a).take (b - a) := by
+  have e1 : l.drop r = (l.drop a).drop (r - a) := by
+    rw [List.drop_drop]; congr 1; omega
+  have e2 : b - a = (r - a) + (b - r) := by omega
+  rw [e1, e2, List.take_add]
+
+theorem Tiles.flatMap {α : Type} (l : List α) {s : List Span} {a b : Nat} (h : Tiles s a b) :
+    s.flatMap (fun sp => (l.drop sp.left).take (sp.right - sp.left)) = (l.drop a).take (b - a) := by
+  induction s generalizing a with
+  | nil => simp only [Tiles] at h; subst h; simp
+  | cons sp r ih =>
+    obtain ⟨e, hlt, ht⟩ := h
+    subst e
+    rw [List.flatMap_cons, ih ht]
+    exact take_drop_glue l _ _ _ (by omega) ht.le
+
+/-- the clauses of a span all have their first non-variable argument at `sp.arg`, or none has a
+non-variable argument. -/
+def SpanOK (cs : List Head) (sp : Span) : Prop :=
+  (∀ j, sp.left ≤ j → j < sp.right → (cs[j]?).map firstInst = some (some sp.arg)) ∨
+  (∀ j, sp.left ≤ j → j < sp.right → (cs[j]?).map firstInst = some none)
+
+theorem splitGo_spec (cs : List Head) (rest : List Head) (right left opt : Nat) (acc : List Span)
+    (hrest : cs.drop right = rest) (hr : right ≤ cs.length) (hl : left ≤ right)
+    (ht : Tiles acc 0 left) (hok : ∀ sp, sp ∈ acc → SpanOK cs sp)
+    (hrun : ∀ j, left ≤ j → j < right → (cs[j]?).map firstInst = some (some opt)) :
+    Tiles (splitGo rest right left opt acc) 0 cs.length ∧
+      ∀ sp, sp ∈ splitGo rest right left opt acc → SpanOK cs sp := by
+  induction rest generalizing right left opt acc with
+  | nil =>
+    have hlen : right = cs.length := by
+      have := List.drop_eq_nil_iff.1 hrest
+      omega
+    subst hlen
+    simp only [splitGo]
+    split
+    · refine ⟨ht.snoc opt (by assumption), fun sp hsp => ?_⟩
+      rcases List.mem_append.1 hsp with h | h
+      · exact hok sp h
+      · simp at h; subst h; exact Or.inl hrun
+    · have : left = cs.length := by omega
+      subst this
+      exact ⟨ht, hok⟩
+  | cons h rest' ih =>
+    have hlt : right < cs.length := by
+      rcases Nat.lt_or_ge right cs.length with h' | h'
+      · exact h'
+      · rw [List.drop_eq_nil_iff.2 h'] at hrest; cases hrest
+    have hget : cs[right]? = some h := by
+      have := congrArg List.head? hrest
+      simpa [List.head?_drop] using this
+    have hrest' : cs.drop (right + 1) = rest' := by
+      have := congrArg List.tail hrest
+      simpa [List.tail_drop] using this
+    simp only [splitGo]
+    cases hfi : firstInst h with
+    | some i =>
+      simp only
+      have hnew : (cs[right]?).map firstInst = some (some i) := by simp [hget, hfi]
+      split
+      · split
+        · have : left = right := by omega
+          subst this
+          apply ih (left + 1) left i acc hrest' (by omega) (by omega) ht hok
+          intro j h1 h2
+          have : j = left := by omega
+          subst this; exact hnew
+        · apply ih (right + 1) right i _ hrest' (by omega) (by omega) (ht.snoc opt (by omega))
+          · intro sp hsp
+            rcases List.mem_append.1 hsp with h | h
+            · exact hok sp h
+            · simp at h; subst h; exact Or.inl hrun
+          · intro j h1 h2
+            have : j = right := by omega
+            subst this; exact hnew
+      · rename_i he
+        have he : opt = i := by simpa using he
+        subst he
+        apply ih (right + 1) left opt acc hrest' (by omega) (by omega) ht hok
+        intro j h1 h2
+        rcases Nat.lt_or_ge j right with h' | h'
+        · exact hrun j h1 h'
+        · have : j = right := by omega
+          subst this; exact hnew
+    | none =>
+      simp only
+      have hnew : (cs[right]?).map firstInst = some none := by simp [hget, hfi]
+      have hacc : Tiles (if left < right then acc ++ [⟨left, right, opt⟩] else acc) 0 right ∧
+          ∀ sp, sp ∈ (if left < right then acc ++ [⟨left, right, opt⟩] else acc) → SpanOK cs sp := by
+        split
+        · refine ⟨ht.snoc opt (by assumption), fun sp hsp => ?_⟩
+          rcases List.mem_append.1 hsp with h | h
+          · exact hok sp h
+          · simp at h; subst h; exact Or.inl hrun
+        · have : left = right := by omega
+          subst this
+          exact ⟨ht, hok⟩
+      apply ih (right + 1) (right + 1) 0 _ hrest' (by omega) (by omega)
+        (hacc.1.snoc 0 (by omega))
+      · intro sp hsp
+        rcases List.mem_append.1 hsp with h | h
+        · exact hacc.2 sp h
+        · simp at h; subst h
+          refine Or.inr (fun j h1 h2 => ?_)
+          have : j = right := by simp at h1 h2; omega
+          subst this; exact hnew
+      · intro j h1 h2; omega
+
+theorem split_spec (cs : List Head) :
+    Tiles (split cs) 0 cs.length ∧ ∀ sp, sp ∈ split cs → SpanOK cs sp :=
+  splitGo_spec cs cs 0 0 0 [] rfl (by omega) (by omega) rfl (fun _ h => by cases h)
+    (fun j _ h => by omega)
+
+/-! ### `compile_predicate` -/
+
+theorem enumFrom'_length (n : Nat) (cs : List Head) : (enumFrom' n cs).length = cs.length := by
+  induction cs generalizing n with
+  | nil => rfl
+  | cons h r ih => simp [enumFrom', ih]
+
+theorem enumFrom'_getElem? (n : Nat) (cs : List Head) (i : Nat) :
+    (enumFrom' n cs)[i]? = (cs[i]?).map (fun h => (n + i, h)) := by
+  induction cs generalizing n i with
+  | nil => simp [enumFrom']
+  | cons h r ih =>
+    cases i with
+    | zero => simp [enumFrom']
+    | succ i =>
+      simp only [enumFrom', List.getElem?_cons_succ, ih]
+      have : n + 1 + i = n + (i + 1) := by omega
+      rw [this]
+
+theorem enumFrom'_map_fst (n : Nat) (cs : List Head) :
+    (enumFrom' n cs).map (·.1) = List.range' n cs.length := by
+  induction cs generalizing n with
+  | nil => rfl
+  | cons h r ih => simp [enumFrom', ih, List.range'_succ]
+
+theorem headOf_enumFrom' (n : Nat) (cs : List Head) (i : Nat) :
+    headOf (enumFrom' n cs) (n + i) = cs[i]? := by
+  induction cs generalizing n i with
+  | nil => simp [enumFrom', headOf]
+  | cons h r ih =>
+    cases i with
+    | zero => simp [enumFrom', headOf]
+    | succ i =>
+      have e : n + (i + 1) = n + 1 + i := by omega
+      have ne : ¬ n = n + 1 + i := by omega
+      simp only [enumFrom', headOf, e, ne, if_false, ih, List.getElem?_cons_succ]
+
+/-- a member of a span is clause `j` of the predicate, for a `j` inside the span. -/
+theorem mem_spanMembers (cs : List Head) (sp : Span) (m : Nat × Head)
+    (hm : m ∈ spanMembers (enumFrom' 0 cs) sp) :
+    ∃ j, sp.left ≤ j ∧ j < sp.right ∧ cs[j]? = some m.2 ∧ m.1 = j := by
+  unfold spanMembers at hm
+  obtain ⟨i, hi⟩ := List.mem_iff_getElem?.1 hm
+  rw [List.getElem?_take] at hi
+  split at hi
+  · rename_i hlt
+    rw [List.getElem?_drop, enumFrom'_getElem?] at hi
+    cases hc : cs[sp.left + i]? with
+    | none => simp [hc] at hi
+    | some h =>
+      simp only [hc, Option.map_some, Option.some.injEq] at hi
+      subst hi
+      exact ⟨sp.left + i, by omega, by omega, hc, by simp⟩
+  · cases hi
+
+theorem build_order (ext : Bool) (cs : List Head) :
+    (build ext cs).order = List.range cs.length := by
+  have ht := (split_spec cs).1
+  unfold Index.order build
+  simp only [List.flatMap_map, compileSeg_chain]
+  rw [← List.map_flatMap]
+  have := ht.flatMap (enumFrom' 0 cs)
+  unfold spanMembers
+  rw [this]
+  simp [← enumFrom'_length 0 cs, enumFrom'_map_fst, List.range_eq_range']
+
+theorem build_alive (ext : Bool) (cs : List Head) (id : Nat) : (build ext cs).alive id = true := by
+  simp [Index.alive, build]
+
+theorem build_hd (ext : Bool) (cs : List Head) (i : Nat) :
+    (build ext cs).hd i = (cs[i]?).getD [] := by
+  have := headOf_enumFrom' 0 cs i
+  simp only [Nat.zero_add] at this
+  simp [Index.hd, build, this]
+
+/-- **whole-predicate compilation establishes the invariant.** -/
+theorem inv_build (ext : Bool) (cs : List Head) : Inv (build ext cs) := by
+  refine ⟨?_, ?_, ?_, ?_, ?_⟩
+  · rw [build_order]; exact List.nodup_range
+  · intro id hi
+    rw [build_order] at hi
+    simpa [build] using hi
+  · intro p hp
+    have : p.1 ∈ (enumFrom' 0 cs).map (·.1) := List.mem_map.2 ⟨p, hp, rfl⟩
+    rw [enumFrom'_map_fst] at this
+    simpa [build] using this
+  · intro id hi; simp [build] at hi
+  · intro sub hs
+    have hs' : Seg.indexed sub ∈ (split cs).map
+        (fun sp => compileSeg ext sp.arg (spanMembers (enumFrom' 0 cs) sp)) := hs
+    obtain ⟨sp, hsp, e⟩ := List.mem_map.1 hs'
+    rcases (split_spec cs).2 sp hsp with hok | hok
+    · apply compileSeg_inv _ _ ext sp.arg _ sub _ _ e
+      · intro m hm
+        obtain ⟨j, _, _, hj, ej⟩ := mem_spanMembers cs sp m hm
+        rw [build_hd, ej, hj]; rfl
+      · intro m hm
+        obtain ⟨j, h1, h2, hj, _⟩ := mem_spanMembers cs sp m hm
+        have := hok j h1 h2
+        simpa [hj] using this
+    · rw [compileSeg_allvar] at e
+      · cases e
+      · intro m hm
+        obtain ⟨j, h1, h2, hj, _⟩ := mem_spanMembers cs sp m hm
+        have := hok j h1 h2
+        simpa [hj] using this
+
+theorem live_build (ext : Bool) (cs : List Head) :
+    (build ext cs).live = List.range cs.length := by
+  unfold Index.live
+  rw [build_order]
+  simp [build_alive]
+
+theorem hd_build (ext : Bool) (cs : List Head) (i : Nat) (h : i < cs.length) :
+    (build ext cs).hd i = cs[i] := by
+  rw [build_hd]; simp [h]
+
+/-- **property C06 for consulted (and initial dynamic) code**: the clauses the index hands over,
+filtered by head unification, are exactly the clauses whose head unifies, in textual order. -/
+theorem build_select_exact (ext : Bool) (cs : List Head) (call : Call) (wf : CallWF call) :
+    (select (build ext cs) call).filter (fun id => compatHead ((build ext cs).hd id) call)
+      = (List.range cs.length).filter (fun id => compatHead ((build ext cs).hd id) call) := by
+  rw [← live_build ext cs]
+  exact (inv_build ext cs).select_exact call wf
+
 end Scryer.Index
